@@ -79,7 +79,7 @@ def one_acquire_one_release(ctx):
     cs = [c for c in own_calls(d.node) if (dotted(c.func) or '') == 'self.get_crt_callback' and len(c.args) >= 2 and norm(c.args[1]) == "'done'"]
     ok = len(cs) == 1 and [norm(a) for a in cs[0].args] == ['future', "'done'", 'on_done_before_calls', 'on_done_after_calls']
     dct = [n for n in own_nodes(d.node) if isinstance(n, ast.Dict) and any(isinstance(k, ast.Constant) and k.value == 'on_done' for k in n.keys)]
-    ok = ok and len(dct) == 1 and any(isinstance(k, ast.Constant) and k.value == 'on_done' and v is cs[0] for k, v in zip(dct[0].keys, dct[0].values))
+    ok = ok and len(dct) == 1 and any(isinstance(k, ast.Constant) and k.value == 'on_done' and q.resolve_local(d, v) is cs[0] for k, v in zip(dct[0].keys, dct[0].values))
     ctx.ob(d, "'on_done': get_crt_callback(future, 'done', on_done_before_calls, on_done_after_calls)", ok, 'the composed on_done callback is not what the CRT request gets')
 
 
